@@ -75,7 +75,8 @@ class Frame:
             return vg[name]
         v = object.__getattribute__(self, '_env').lookup(name)
         if v is _MISSING:
-            raise CheckerError(f'invariant refers to unknown local {name!r}')
+            # the contract was written for a body that had this local: it does not apply to the code as it is now
+            raise Unsupported(f'the contract refers to a local {name!r} that the function does not have (any more)')
         return v
 
     def __setattr__(self, name, value):
@@ -331,7 +332,7 @@ class Interp:
             try:
                 return next(cm.gen)
             except StopIteration:
-                raise CheckerError('contextmanager generator did not yield')
+                raise Unsupported('a @contextmanager function returned without yielding')
         if isinstance(cm, PyObj):
             return self.call(self.getattr(cm, '__enter__'), [], {})
         if hasattr(cm, 'sym_enter'):
@@ -346,12 +347,12 @@ class Interp:
                     next(cm.gen)
                 except StopIteration:
                     return False
-                raise CheckerError('contextmanager generator yielded twice')
+                raise Unsupported('a @contextmanager function yielded twice')
             try:
                 cm.gen.throw(PyRaise(exc))
             except StopIteration:
                 return True
-            raise CheckerError('contextmanager generator yielded twice')
+            raise Unsupported('a @contextmanager function yielded twice')
         if isinstance(cm, PyObj):
             if exc is None:
                 self.call(self.getattr(cm, '__exit__'), [None, None, None], {})
@@ -1085,6 +1086,8 @@ class Interp:
 
     def e_SetComp(self, n, env):
         items = self._comp(n, env)
+        if not isinstance(items, list):
+            return items                 # (an abstract source may answer with an abstract collection)
         s = SSet.empty()
         for x in items:
             s = s.add(x)
@@ -1357,7 +1360,9 @@ class Interp:
             return 'body'
         if u is not None and q in getattr(u, 'inline_prefix', ()):
             return 'body'
-        raise CheckerError(f'callee {q} has neither a contract nor an inline permission (unit {u.fn if u else None})')
+        # a call the contract of this unit does not know about (e.g. added by a change to the function): the unit is
+        # undecided -- it is neither inlined silently nor reported as a failure of the checker
+        raise Unsupported(f'callee {q} has neither a contract nor an inline permission (unit {u.fn if u else None})')
 
     def call_func(self, f, args, kwargs):
         pol = self.policy(f)
